@@ -108,7 +108,7 @@ class TplSystem:
             for bs in range(1, Nb + 1):
                 out.append((('B', bs), 0))
             return out
-        if nb == 1 and not matched and self.tier == 'thorough':
+        if nb == 1 and not matched and (self.tier == 'thorough' or (self.decl == 'contiguous' and not self.und)):
             out.append((('B', 1), 1)); out.append((('B', Nb), 1))
         nxt = 'A' if not matched else 'B'
         for bs in range(1, len(self.sets[nxt]) + 1):
